@@ -300,12 +300,13 @@ Definition glue_srv (a o : list value) : option verdict :=
   match o with
   | [VL [VZ 0]] => Some (relational true true)          (* the request could not be encoded: nothing sent *)
   | [VL [VZ 99]] => Some (relational false false)       (* the process died *)
-  | [VL [VZ 1; VB req; VZ nrep; VB rep; VB pnonce; VB pct; VZ authok; VB plain; VL cookiesv; VB k1; VB k2; VZ curk; VZ openz]] =>
+  | [VL [VZ 1; VB req; VZ nrep; VB rep; VB pnonce; VB pct; VZ authok; VB plain; VL cookiesv; VB k1; VB k2; VZ curk; VZ openz; VZ warm]] =>
       match parse_facts cookiesv with
       | None => None
       | Some cfs =>
           let served := 0 <? nrep in
-          let oracle := if zb openz
+          let oracle := ((warm =? -1) || (warm =? 1)) &&
+                        if zb openz
                         then (nrep =? 1) && reply_ok req rep (zb authok) cfs k1 k2 (values_or_nil req) curk
                         else nrep =? 0 (* a cookie under an expired key is refused *) in
           let agree :=
